@@ -20,6 +20,24 @@ pub fn run(out: &mut Out, tier: &str, rng: &mut Rng) {
         evs.push(Ev::Bytes(sess::frame(0x20, &[0x00])));
         sess::run_case(out, &inst, "sess", &evs, true);
     }
+    // boundary of the payload size limit on the variable-size types (session, motion): a frame of exactly
+    // MAX_PAYLOAD_SIZE bytes is a whole frame; what follows it must still be dispatched
+    for ty in [0x10u8, 0x20] {
+        for len in [1022usize, 1023, 1024] {
+            for fill in [b'a', 0u8] {
+                let mut payload = vec![fill; len];
+                payload[0] = if ty == 0x10 { 0x02 } else { 0x00 };
+                let mut st = sess::frame(ty, &payload);
+                let b1 = st.len();
+                st.extend(sess::frame(0x20, &[0x00]));
+                st.extend(sess::frame(0x45, &[0x1E, 1]));
+                sess::run_case(out, &inst, "sess", &[Ev::Bytes(st.clone())], true);
+                sess::run_case(out, &inst, "sess", &chunks(&st, &[10, b1]), true);
+                sess::run_case(out, &inst, "sess", &[Ev::Bytes(st[..b1 - 1].to_vec()), Ev::Signal(rand_signal(&mut Rng::new(7))), Ev::Bytes(st[b1 - 1..].to_vec())], true);
+                out.count("frame at-size-limit");
+            }
+        }
+    }
     let n_streams = if thorough { 4000 } else { 260 };
     for i in 0..n_streams {
         let nf = 1 + rng.below(4) as usize;
